@@ -18,9 +18,9 @@ pub fn eval_request(st: &mut State, req: &str) -> Option<Obs> {
         ["msg", which, s, d1, d2] => {
             Some(msgs::msg_obs(which, s.parse().ok()?, d1.parse().ok()?, d2.parse().ok()?))
         }
-        ["blk", which, s] => {
+        ["blk", mask, which, s] => {
             let mut o = Obs::new();
-            o.0.push(msgs::blk_digest(which, s.parse().ok()?) as i64);
+            o.0.push(msgs::blk_digest(mask, which, s.parse().ok()?) as i64);
             Some(o)
         }
         _ => None,
@@ -80,9 +80,10 @@ fn main() {
         }
         // one digest per (implementation, status byte) over all 128 x 128 data bytes
         "msg-blocks" => {
+            let mask = args.get(2).map(|s| s.as_str()).unwrap_or("all").to_string();
             for which in msgs::IMPLS {
                 for s in 0..=255u8 {
-                    out.req(&format!("blk {} {}", which, s));
+                    out.req(&format!("blk {} {} {}", mask, which, s));
                 }
             }
             out.stat("evaluations", 4 * 256 * 128 * 128);
